@@ -77,3 +77,23 @@ Example C03_ex :
           [0; 1; 2; 3; 4; 5; 6]%nat = true /\
   rr_out (ex_run ex_cctp (repeat true 7)) = OAckOk /\ length (rr_trace (ex_run ex_cctp [])) = 7%nat.
 Proof. vm_compute. repeat split; reflexivity. Qed.
+
+(* ---------- the same on ANY chain, whatever its Hyperlane hooks charge for gas ([recv_gas g], any g) ---------- *)
+From Orbiter Require Import Proofs.GasHistories.
+Theorem C03_success_all_ok_any_hooks : forall g cfg e w p tape,
+  rr_out (recv_gas g cfg e w p tape 0) = OAckOk ->
+  Forall (fun cv => snd cv = true) (rr_trace (recv_gas g cfg e w p tape 0)).
+Proof. exact success_all_ok_hooks. Qed.
+Print Assumptions C03_success_all_ok_any_hooks.
+Theorem C03_failure_refuses_any_hooks : forall g cfg e w p tape c,
+  In (c, false) (rr_trace (recv_gas g cfg e w p tape 0)) -> rr_out (recv_gas g cfg e w p tape 0) <> OAckOk.
+Proof.
+  intros g cfg e w p tape c Hin H. pose proof (success_all_ok_hooks _ _ _ _ _ _ H) as Hall.
+  rewrite Forall_forall in Hall. specialize (Hall _ Hin). discriminate.
+Qed.
+Print Assumptions C03_failure_refuses_any_hooks.
+Theorem C03_error_rollback_any_hooks : forall g cfg e w p tape l,
+  rr_out (recv_gas g cfg e w p tape 0) = OAckErr l ->
+  rr_world (recv_gas g cfg e w p tape 0) = w /\ rr_moves (recv_gas g cfg e w p tape 0) = [].
+Proof. intros g cfg e w p tape l. exact (recv_gas_err_unchanged g cfg e w p tape 0 l). Qed.
+Print Assumptions C03_error_rollback_any_hooks.
